@@ -528,10 +528,10 @@ def gen_bipartition_methods(bp_tree):
             ("is_leafset_nested_within", "iob"), ("is_trivial", None)]
     for name, other in plan:
         fn = find_def(cls, name)
-        out.append("(* Bipartition.%s, line %d *)" % (name, fn.lineno))
+        out.append("(* Bipartition.%s *)" % (name,))
         out.append(MethodC(cls, fn, other_type=other).translate(RETURNS[name]))
     fn = find_def(cls, "__init__")
-    out.append("(* Bipartition.__init__, line %d *)" % fn.lineno)
+    out.append("(* Bipartition.__init__ *)")
     out.append(MethodC(cls, fn, kwargs_types=INIT_KW).translate(None, name="init", constructor=True))
     return out
 
@@ -893,7 +893,7 @@ def gen_taxon_fns(tx_tree):
     f = IntFn(fn, {})
     f.types = {"i": "Z"}
     code = f.as_z(h[1].value)
-    out.append("(* TaxonNamespace.taxon_bitmask, line %d: i = accession index of the taxon *)" % fn.lineno)
+    out.append("(* TaxonNamespace.taxon_bitmask: i = accession index of the taxon *)")
     out.append("Definition gen_taxon_bitmask (i : Z) : Z :=\n  let %s := %s in\n  %s.\n" % (h[1].targets[0].id, code, h[1].targets[0].id))
     fn = find_def(cls, "all_taxa_bitmask")
     body = [s for s in fn.body if not is_doc(s)]
@@ -908,7 +908,7 @@ def gen_taxon_fns(tx_tree):
             raise Unsupported("all_taxa_bitmask reads %s" % D(n)[:60])
     body = [R().visit(s) for s in body]
     code = f.block(body, None)
-    out.append("(* TaxonNamespace.all_taxa_bitmask, line %d *)" % fn.lineno)
+    out.append("(* TaxonNamespace.all_taxa_bitmask *)")
     out.append("Definition gen_all_taxa_bitmask (current_accession_count : Z) : Z :=\n  %s.\n" % code)
     return out
 
@@ -947,7 +947,7 @@ def gen_encode(tree_mod, bip_cls):
                 raise Unsupported("%s: argument %s" % (name, kw.arg))
         if any(v is None for v in slots.values()):
             raise Unsupported("%s: missing argument" % name)
-        out.append("(* Tree.%s, line %d; seed_leafset = self.seed_node.edge.bipartition._leafset_bitmask *)" % (name, fn.lineno))
+        out.append("(* Tree.%s; seed_leafset = self.seed_node.edge.bipartition._leafset_bitmask *)" % (name,))
         out.append("Definition gen%s (seed_leafset : option Z) (edge_bipartition : bip) : res bip :=\n"
                    "  do r_ <- gen_compile_split_bitmask edge_bipartition %s;;\n  Ok (fst r_).\n"
                    % (name, " ".join(slots[p] for p, _t, _d in sig)))
@@ -1035,9 +1035,9 @@ def gen_encode(tree_mod, bip_cls):
     expect(nxt(), "return self.bipartition_encoding")
     if i != len(body):
         raise Unsupported("encode_bipartitions: trailing statements")
-    out.append("(* Tree.encode_bipartitions, line %d: the loop body *)" % fn.lineno)
+    out.append("(* Tree.encode_bipartitions: the loop body *)")
     out.append(visit)
-    out.append("(* Tree.encode_bipartitions, line %d *)" % fn.lineno)
+    out.append("(* Tree.encode_bipartitions *)")
     out.append(
         "Definition gen_encode_bipartitions (suppress_unifurcations collapse_unrooted_basal_bifurcation suppress_storage\n"
         "  is_bipartitions_mutable : bool) (acc : Z -> Z) (self_is_rooted : option bool) (t : tree) : res (option genc) :=\n"
@@ -1200,7 +1200,7 @@ def gen_from_splits(tree_mod, bip_cls):
     env = {loop.target.id: ("Z", loop.target.id), "all_taxa_bitmask": ("Z", "all_taxa_bitmask"),
            "is_rooted": ("obool", "is_rooted")}
     filt = fc.appends(loop.body, env, "split_bitmasks_to_add")
-    out = ["(* Tree.from_split_bitmasks, line %d: the loop building split_bitmasks_to_add *)" % fn.lineno,
+    out = ["(* Tree.from_split_bitmasks: the loop building split_bitmasks_to_add *)",
            "Definition gen_splits_to_add (is_rooted : option bool) (all_taxa_bitmask : Z) (split_bitmasks : list Z) : list Z :=\n"
            "  flat_map (fun %s => %s) split_bitmasks.\n" % (loop.target.id, filt)]
     s = nxt()
@@ -1311,8 +1311,8 @@ def gen_from_splits(tree_mod, bip_cls):
     expect(nxt(), "return reconstructed_tree")
     if pos[0] != len(body):
         raise Unsupported("from_split_bitmasks: trailing statements")
-    out.append("(* Tree.from_split_bitmasks, line %d: one iteration of the insertion loop, at the node the\n"
-               "   leaf-to-root search stops at *)" % fn.lineno)
+    out.append("(* Tree.from_split_bitmasks: one iteration of the insertion loop, at the node the\n"
+               "   leaf-to-root search stops at *)")
     out.append(
         "Definition gen_from_splits_at_node (all_taxa_bitmask %s : Z) (parent_node : mtree) : res mtree :=\n"
         "  if %s then Ok parent_node else\n"
@@ -1336,14 +1336,14 @@ def gen_from_splits(tree_mod, bip_cls):
         "    if %s then Ok (prim_regroup parent_node new_node_children new_leafset) else Ok parent_node\n"
         "  end.\n"
         % (sv, present, mask0, ch, cv, cvcode, gtest, gassert, gupd, ch, initargs, ftest))
-    out.append("(* Tree.from_split_bitmasks, line %d: one iteration of the insertion loop *)" % fn.lineno)
+    out.append("(* Tree.from_split_bitmasks: one iteration of the insertion loop *)")
     out.append(
         "Definition gen_from_splits_step (all_taxa_bitmask : Z) (t : mtree) (%s : Z) : res mtree :=\n"
         "  if %s then Ok t else\n"
         "  let %s := %s in\n"
         "  prim_locate_apply (fun mask_ => %s) %s (gen_from_splits_at_node all_taxa_bitmask %s) t.\n"
         % (sv, outside, lbname, lbcode, not_covers, lbname, sv))
-    out.append("(* Tree.from_split_bitmasks, line %d *)" % fn.lineno)
+    out.append("(* Tree.from_split_bitmasks *)")
     out.append(
         "Definition gen_from_split_bitmasks (ns : list (Z * Z)) (current_accession_count : Z) (is_rooted : option bool)\n"
         "  (split_bitmasks : list Z) : res mtree :=\n"
@@ -1393,7 +1393,7 @@ def gen_tree_compat(tree_mod, bip_cls):
         if b:
             raise Unsupported("__eq__ operand can raise")
         return c
-    out.append("(* Bipartition.__eq__, line %d *)" % eq.lineno)
+    out.append("(* Bipartition.__eq__ *)")
     out.append("Definition gen_bip_eq (self other : bip) : bool :=\n  %s.\n" % eq_cond(body[0].value))
     cls = [n for n in tree_mod.body if isinstance(n, ast.ClassDef) and n.name == "Tree"][0]
     fn = find_def(cls, "is_compatible_with_bipartition")
@@ -1419,8 +1419,8 @@ def gen_tree_compat(tree_mod, bip_cls):
             and len(t.operand.args) == 1 and same(t.operand.args[0], "bipartition") and not t.operand.keywords):
         raise Unsupported("is_compatible_with_bipartition test")
     meth = t.operand.func.attr
-    out.append("(* Tree.is_compatible_with_bipartition, line %d, on an up-to-date encoding\n"
-               "   (is_bipartitions_updated=True, non-empty bipartition_encoding) *)" % fn.lineno)
+    out.append("(* Tree.is_compatible_with_bipartition, on an up-to-date encoding\n"
+               "   (is_bipartitions_updated=True, non-empty bipartition_encoding) *)")
     out.append("Definition gen_is_compatible_with_bipartition (bipartition_encoding : list bip) (bipartition : bip) : res bool :=\n"
                "  if existsb (fun %s => gen_bip_eq bipartition %s) bipartition_encoding then Ok true\n"
                "  else all_res (fun %s => do r_ <- gen_%s %s (IsBip bipartition);; Ok (snd r_)) bipartition_encoding.\n"
